@@ -237,6 +237,39 @@ func calleeName(in ssa.Instruction) string {
 	return "dyn"
 }
 
+// Resolve follows phis along the path: the value a phi takes given the blocks the path went through.
+func (p *Path) Resolve(v ssa.Value) ssa.Value {
+	for i := 0; i < 20; i++ {
+		v = stripConv(v)
+		phi, ok := v.(*ssa.Phi)
+		if !ok {
+			return v
+		}
+		pos := -1
+		for bi := len(p.Blocks) - 1; bi >= 1; bi-- {
+			if p.Blocks[bi] == phi.Block() {
+				pos = bi
+				break
+			}
+		}
+		if pos < 1 {
+			return v
+		}
+		pred := p.Blocks[pos-1]
+		idx := -1
+		for k, pb := range phi.Block().Preds {
+			if pb == pred {
+				idx = k
+			}
+		}
+		if idx < 0 {
+			return v
+		}
+		v = phi.Edges[idx]
+	}
+	return v
+}
+
 // Index returns the index of the first event satisfying pred, or -1.
 func (p *Path) Index(pred func(Event) bool) int {
 	for i, e := range p.Events {
@@ -298,6 +331,7 @@ type PathOpts struct {
 	NoPrune  bool
 	SkipEdge func(from, to *ssa.BasicBlock) bool
 	Within   map[*ssa.BasicBlock]bool // if set, a path ends (End="exit") when it steps to a block outside this set
+	Assume   map[ssa.Value]string     // value → constant (constStr form) assumed equal for the whole path (switch-arm selection)
 }
 
 type pathEnum struct {
@@ -417,6 +451,9 @@ func Paths(fn *ssa.Function, opts PathOpts) ([]*Path, bool) {
 	pe := &pathEnum{opts: opts}
 	visits := map[*ssa.BasicBlock]int{}
 	cs := &cstate{eq: map[ssa.Value]string{}, neq: map[ssa.Value]map[string]bool{}, lits: map[string]bool{}}
+	for v, c := range opts.Assume {
+		cs.eq[v] = c
+	}
 	pe.walk(fn, opts.Start, nil, nil, visits, cs, true)
 	return pe.paths, !pe.over
 }
